@@ -15,6 +15,7 @@ package main
 import (
 	"fmt"
 	"os"
+	"path/filepath"
 	"sort"
 	"strings"
 
@@ -189,6 +190,13 @@ func (w *worker) evaluate(c caseT) {
 	r.Violate(sig, detail, caseT{Index: c.Index, Readable: minP.String(), Program: minP, Original: p, OriginalReadable: p.String()})
 }
 
+func scratchDir(r *h.Run) string {
+	if r.Replay != "" {
+		return filepath.Join(r.Out, "scratch-replay")
+	}
+	return filepath.Join(r.Out, fmt.Sprintf("scratch-%s-%d", r.Phase, r.Shard))
+}
+
 func firstLine(s string) string {
 	if i := strings.Index(s, "\n"); i > 0 {
 		return s[:i]
@@ -199,6 +207,7 @@ func firstLine(s string) string {
 func main() {
 	r := h.Start("C09")
 	defer r.Finish()
+	respgen.ScratchDir = scratchDir(r)
 	env, err := respgen.NewEnv(guardalloc.Options{})
 	if err != nil {
 		r.Inconclusive("cannot set up the scratch directory: " + err.Error())
